@@ -171,6 +171,18 @@ def check_C02(chk):
                                                                                           "observed_batches": (sby.get(c["id"]) or {}).get("batches", [])[:3]},
                                   key="c02set:%s:%s:%s" % (fl, PS.plan_str(c["plans"])[:150], c["mode"]))
         chk.coverage.setdefault("receiver_set_order_scenarios", {})[fl] = len(sby)
+    # typed messages that follow, on the same thread, a send whose serialisation failed half-way: bytes of the abandoned message must
+    # not be mixed into the next one (frag driver, typed level, both builds)
+    tcases = [{"id": 400000 + i, "len": L, "nsend": i % 2, "nrecv": 0, "nshm": i % 2, "level": "typed", "prefail": 1}
+              for i, L in enumerate([0, 10, 300, F.ffs(4096) - 40, F.ffs(4096) + 1, 3 * F.fs(4096)])]
+    for fl, S, shim in (("default", 4096, True), ("inprocess", None, False)):
+        for it in F.run_cases(bins[fl], S, tcases, flavour=fl, shim=shim):
+            why = F.oracle(chk, it, True)
+            if why:
+                fails.append((it, why))
+                chk.failing_input("a typed message sent right after a send whose serialisation failed half-way: " + why,
+                                  {"build": fl, "input": it["case"], "observed": it["rec"]}, key="c02prefail:%s:%d" % (fl, it["case"]["len"]))
+    chk.coverage["messages_after_failed_serialisation"] = 2 * len(tcases)
     ncmp, bad, errors = F.correspond(sends, "c02")
     cov = chk.coverage
     cov["evaluations"] = len(items)
